@@ -125,6 +125,17 @@ Proof.
     + rewrite Hr. reflexivity.
 Qed.
 
+(* SignalEnum.modifySize: the hint it sets is consumed by the errorf of its caller *)
+Lemma push_fail_cleared : forall en pf sg,
+  push_failure en pf = Some sg -> e_hint (fst (enum_errorf (set_ehint en (Some sg)))) = None.
+Proof.
+  intros en [x|] sg H; simpl in H; [|discriminate].
+  destruct (find (fun r => r_sig r =? x) (e_refs en)) as [r|] eqn:Ef; [|discriminate].
+  inversion H; subst. unfold enum_errorf. simpl.
+  destruct (e_refs en) as [|r0 rest] eqn:Er; [simpl in Ef; discriminate|].
+  rewrite Ef. reflexivity.
+Qed.
+
 Lemma mstep_quiescent : forall s o, Quiescent s -> Quiescent (fst (mstep s o)).
 Proof.
   intros s o [HN HE]. destruct o; simpl.
@@ -165,9 +176,11 @@ Proof.
     pose proof (nth_error_Forall _ _ _ _ HE En) as Hh. simpl in Hh.
     destruct (verify_value_index en idx) as [en1|] eqn:Ev.
     + split; simpl; auto. apply Forall_upd_nth_const; auto. eapply verify_fail_cleared; eauto.
-    + destruct (zmem v (map fst (e_vals en))); split; simpl; auto.
+    + destruct (zmem v (map fst (e_vals en))); [split; simpl; auto|].
       * apply Forall_upd_nth_const; auto. now rewrite enum_errorf_quiet.
-      * apply Forall_upd_nth_const; auto.
+      * destruct (if e_max en <? idx then push_failure en push_fail else None) as [sg|] eqn:Ep;
+          split; simpl; auto; apply Forall_upd_nth_const; auto.
+        destruct (e_max en <? idx); [|discriminate]. eapply push_fail_cleared; eauto.
   - (* remove value *)
     destruct (nth_error (enums s) e) as [en|] eqn:En; [|split; auto].
     pose proof (nth_error_Forall _ _ _ _ HE En) as Hh. simpl in Hh.
@@ -179,9 +192,19 @@ Proof.
     pose proof (nth_error_Forall _ _ _ _ HE En) as Hh. simpl in Hh.
     destruct (find _ (e_vals en)) as [[v0 old]|]; [|split; auto].
     destruct (old =? idx); [split; auto|].
-    destruct (verify_value_index en idx) as [en1|] eqn:Ev; split; simpl; auto.
-    + apply Forall_upd_nth_const; auto. eapply verify_fail_cleared; eauto.
-    + apply Forall_upd_nth; auto.
+    destruct (verify_value_index en idx) as [en1|] eqn:Ev.
+    + split; simpl; auto. apply Forall_upd_nth_const; auto. eapply verify_fail_cleared; eauto.
+    + destruct (push_failure en push_fail) as [sg|] eqn:Ep; split; simpl; auto.
+      * apply Forall_upd_nth_const; auto. eapply push_fail_cleared; eauto.
+      * apply Forall_upd_nth; auto.
+  - split; simpl; auto.
+  - split; simpl; auto.
+  - split; simpl; auto.
+  - split; simpl; auto.
+  - split; simpl; auto.
+  - split; simpl; auto.
+  - destruct (nth_error (msgs s) m) as [x|]; [|split; auto].
+    destruct (m_sender x) as [[n' i']|]; [destruct (Nat.eqb n n' && Nat.eqb i i')|]; split; simpl; auto.
 Qed.
 
 Lemma step_quiescent : forall s o, Quiescent s -> Quiescent (fst (step s o)).
@@ -340,9 +363,12 @@ Qed.
 Definition ex_ops : list op :=
   [ Mut (MNewBus 500000 [1;2;3]); Mut (MNewNode 10 1 1); Mut (MNewNode 11 2 2);
     Mut (MNodeAttach 0 0 0); Mut (MNodeAttach 1 1 0); Mut (MNodeRename 1 10);
-    Mut MNewEnum; Mut (MEnumAddRef 0 7 (Some 2) true); Mut (MEnumAddValue 0 100 1);
-    Mut (MEnumAddValue 0 101 8);
-    Mut (MNewMsg 5 1 8 100 [7]); Mut (MMsgSetSender 0 0 0);
+    Mut MNewEnum; Mut (MEnumAddRef 0 0 (Some 2) true); Mut (MEnumAddValue 0 100 1 None);
+    Mut (MEnumAddValue 0 101 8 None);
+    Mut (MNewType [8;0;0;255;1;0]); Mut (MNewUnit 86); Mut (MNewAttrDef [0;7]);
+    Mut (MNewSig 0 0); Mut (MSigAssignAttr 1 0);
+    Mut (MNewMsg 5 1 8 100 [1;0]); Mut (MMsgSetSender 0 0 0); Mut (MMsgAssignAttr 0 0);
+    Mut (MMsgAddRecv 0 1 1); Mut (MBusAssignAttr 0 0); Mut (MNodeAssignAttr 0 0);
     Ro (RNodeGetAttr 1 99); Ro (REnumGetValue 0 555) ].
 
 Lemma ex_reach_l : Reach (run ex_ops).
@@ -353,23 +379,27 @@ Lemma ex_rename_routed_l :
 Proof. vm_compute. reflexivity. Qed.
 
 Lemma ex_addvalue_routed_l :
-  snd (mstep (run (firstn 9 ex_ops)) (MEnumAddValue 0 101 8)) = [-1; K_ENUM; K_SIG; K_MSG].
+  snd (mstep (run (firstn 9 ex_ops)) (MEnumAddValue 0 101 8 None)) = [-1; K_ENUM; K_SIG; K_MSG].
 Proof. vm_compute. reflexivity. Qed.
 
+(* the worker of bus 0 reads, besides the bus, its nodes and messages, the SHARED attribute
+   definition 0 (four times), type 0, unit 0 and the values of enum 0 *)
 Lemma ex_export_l : export_bus (run ex_ops) 0 =
-  [[500000; 1; 2; 3]; [10; 1; 0]; []; [3; 1; 5; 1; 1; 2; 3]; [7]; [11; 2; -1; 0]; []].
+  [[500000; 1; 2; 3; 0]; [0]; [0; 7]; [10; 1; 0]; [0]; [0; 7]; [3; 1; 5; 1; 1; 2; 3]; [0]; [0; 7];
+   [1; 0]; [0]; [0; 7]; [1025]; [0; 0; -1]; [8; 0; 0; 255; 1; 0]; [86];
+   []; [1025]; [-1; -1; 0]; [100]; [11; 2; -1; 0]; []].
 Proof. vm_compute. reflexivity. Qed.
 
 (* the model does contain the writes: outside the reachable states (hint left set) the very
    same read-only operations modify the shared state *)
 Lemma ro_writes_when_hint_set_l : exists s q, fst (ro s q) <> s.
 Proof.
-  exists (mkState [mkNode 1 1 [None] 0 []] [] [] []), (RNodeGetAttr 0 5).
+  exists (mkState [mkNode 1 1 [None] 0 []] [] [] [] (mkShared [] [] [] [])), (RNodeGetAttr 0 5).
   vm_compute. discriminate.
 Qed.
 
 Lemma ro_writes_when_enum_hint_set_l : exists s q, fst (ro s q) <> s.
 Proof.
-  exists (mkState [] [mkEnum [] 0 1 [mkRef 7 None false] (Some 7)] [] []), (REnumGetValue 0 5).
+  exists (mkState [] [mkEnum [] 0 1 [mkRef 7 None false] (Some 7)] [] [] (mkShared [] [] [] [])), (REnumGetValue 0 5).
   vm_compute. discriminate.
 Qed.
